@@ -42,7 +42,7 @@ ASSUMPTIONS = ["source texts are modules the running interpreter (3.12) parses; 
                "interpreter's span; those two characters are not demanded from the region",
                "the interpreter's span of a compound statement takes in the ';' ending its last simple statement; "
                "that separator is not demanded from the region"]
-BUDGET = {"quick": (4000, 75), "thorough": (200000, 480)}
+BUDGET = {"quick": (4000, 240), "thorough": (8300, 900)}
 EXHAUSTIVE = {}
 REQUIRE = {"sources_checked": 300, "nodes_span_checked": 200000, "nodes_reparsed": 200000,
            "containment_pairs": 200000, "variant_sources": 100, "generated_sources": 100,
